@@ -4,6 +4,7 @@ From Coq Require Import List String NArith ZArith Bool.
 From AM Require Import Rust.Ast Rust.Eval Gen.Error Gen.Asset Gen.Key Ref.Load Proofs.Load
   Tie.Error Tie.LoadFromSource Gen.Flags Tie.Dirs Gen.Loaders Tie.Loaders Gen.Private Tie.Graph.
 From AM Require Gen.Fs Tie.Fs.
+From AM Require Gen.Anycache Tie.Records.
 From AM Require Ref.Utf8 Ref.Loaders Proofs.Loaders.
 Import ListNotations.
 Open Scope N_scope.
@@ -128,3 +129,11 @@ Proof. exact Tie.Fs.filesystem_source_as_modelled. Qed.
 (* one path through load_from_source whatever the number of extensions: the loop, then default_value *)
 Theorem C03_code_load_from_source_has_one_path : load_from_source_shape Gen.Asset.load_from_source = true.
 Proof. exact load_from_source_has_one_path. Qed.
+
+(* what a loader reads IS what the source's read returns: the cache's `read` (the glue between
+   load_from_source and the Source) records the file for hot-reloading and then hands back
+   `self.get_source().read(id, ext)` -- two statements, no probe (exists), no filtering, no retry *)
+Theorem C03_code_cache_reads_go_straight_to_the_source :
+  AM.Tie.Records.read_records_first AM.Gen.Anycache.Cache_read "add_file_record" = true /\
+  AM.Tie.Records.read_records_first AM.Gen.Anycache.Cache_read_dir "add_dir_record" = true.
+Proof. exact (conj (proj1 AM.Tie.Records.recording_call_sites) (proj1 (proj2 AM.Tie.Records.recording_call_sites))). Qed.
